@@ -87,6 +87,11 @@ impl<T: Clone + TTOverwriteable> TranspositionTable<T> {
     }
 
     pub fn insert(&mut self, key: &ZobristHash, data: T) {
+        // A table with no entries (Hash = 0) stores nothing
+        if self.data.is_empty() {
+            return;
+        }
+
         let idx = self.get_entry_idx(key);
 
         // !: We know the exact size of the table and will always access within the bounds.
@@ -110,6 +115,11 @@ impl<T: Clone + TTOverwriteable> TranspositionTable<T> {
     }
 
     pub fn get(&self, key: &ZobristHash) -> Option<&T> {
+        // A table with no entries (Hash = 0) finds nothing
+        if self.data.is_empty() {
+            return None;
+        }
+
         let idx = self.get_entry_idx(key);
 
         // !: We know the exact size of the table and will always access within the bounds.
